@@ -45,12 +45,13 @@ structure Conj (env : Env) (tb : DeriveTables) (st : Settings) (σ : Space) : Pr
   dflt : env.dfltOk = true
   acyclic : c7_acyclic σ = true
   serde : c8_serde tb st σ = true
+  deref : c9_deref tb st σ = true
 
 theorem wf_conj (h : WF env tb st σ = true) : Conj env tb st σ := by
   unfold WF at h
   simp only [Bool.and_eq_true] at h
-  obtain ⟨⟨⟨⟨⟨⟨⟨⟨⟨⟨h1, h2⟩, h3⟩, h4⟩, h5⟩, h6⟩, h7⟩, h8⟩, h9⟩, h10⟩, h11⟩ := h
-  exact ⟨h1, h2, h3, h4, h5, h6, h7, h8, h9, h10, h11⟩
+  obtain ⟨⟨⟨⟨⟨⟨⟨⟨⟨⟨⟨h1, h2⟩, h3⟩, h4⟩, h5⟩, h6⟩, h7⟩, h8⟩, h9⟩, h10⟩, h11⟩, h12⟩ := h
+  exact ⟨h1, h2, h3, h4, h5, h6, h7, h8, h9, h10, h11, h12⟩
 
 /-- an item of the module and the entry it was made from -/
 theorem item_entry {m : MItem} (h : m ∈ (modOf tb st σ).items) :
@@ -393,6 +394,17 @@ theorem display_literals_valid (ent : Entry) (it : ItemS) (fns : List String)
     obtain ⟨hb, _⟩ := hi; rw [← hb] at ha; simp at ha
   | _ => simp [hd] at hi
 
+/-! ## (9) auto-deref chains -/
+
+/-- **every auto-deref chain is finite**: from every item the chain of `Deref` targets (newtype to inner type,
+    through `Box`) reaches a type that is not a newtype -/
+theorem wf_deref_finite (h : WF env tb st σ = true) :
+    ∀ m ∈ (modOf tb st σ).items, ∃ n, derefEnds (modOf tb st σ) n m.id = true := by
+  have c := (wf_conj h).deref
+  unfold c9_deref at c
+  intro m hm
+  exact ⟨_, List.all_eq_true.mp c m hm⟩
+
 /-! ## the main theorem -/
 
 /-- **`WF` implies the Rust rules**: for every IR and every settings assignment, if the decidable
@@ -406,6 +418,7 @@ theorem wf_compiles (h : WF env tb st σ = true) : Compiles env (modOf tb st σ)
   defaultsTyped := (wf_conj h).dflt
   finiteSize := wf_finite_size h
   serdeLegal := wf_serde_legal h
+  derefFinite := wf_deref_finite h
 
 /-! ## `to_stream()` takes no partial step on a WF input -/
 
